@@ -34,7 +34,7 @@ def _dec_kv(v):
 
 def _same_kv(model, real):
     m = _dec_kv(model)
-    return set(m) == set(real) and all(abs(m[k] - Fraction(real[k])) <= Fraction(1, 10**12) for k in m)     # (0.8 the float vs 4/5 the literal)
+    return set(m) == set(real) and all(abs(m[k] - Fraction(float(real[k]))) <= Fraction(1, 10**12) for k in m)     # (0.8 the float vs 4/5 the literal)
 
 def _num(k, q):
     return int(q) if (k == 'min_n_cycles' and q.denominator == 1) else float(q)
@@ -190,6 +190,9 @@ def evaluate(ctx, cases):
             if ok: info['judge'] = msg
             ok = False
         th_in = copy.deepcopy(c['th'])
+        if th_in is not None and c['seed'] % 3 == 0:       # threshold values as numpy scalars (a float32 parameter grid, numpy integers)
+            th_in = {k: (np.int64(v) if k == 'min_n_cycles' else np.float32(v)) for k, v in th_in.items()}
+        c_eff = dict(c, th=(None if th_in is None else {k: (int(v) if k == 'min_n_cycles' else float(v)) for k, v in th_in.items()}))     # (exact values held)
         try:
             bm = implutil.quiet(Bycycle, center_extrema=c['center'], burst_method=c['method'], thresholds=th_in,
                                 find_extrema_kwargs=copy.deepcopy(c['fek']), return_samples=c['rs'])
@@ -198,7 +201,7 @@ def evaluate(ctx, cases):
         # shorthand expansion vs the Lean function
         exp_req = None
         if c['th'] is not None:
-            exp_req = ('objs.expand ' + _kv(c['th']), dict(bm.thresholds))
+            exp_req = ('objs.expand ' + _kv(c_eff['th']), dict(bm.thresholds))
         nfit = 0; edited_before_fit = False; last_sig = None
         obs = []; loaded = {}                 # per executed operation: (model op, outcome, snapshot of the object)
         def snap():
@@ -241,7 +244,7 @@ def evaluate(ctx, cases):
                         obs.append((mop, outcome, snap())); continue
                     prev = bm.df_features.copy(deep=True); th_before = copy.deepcopy(bm.thresholds)
                     red = bm.reduce_thresholds(op[1])
-                    reqs.append('objs.reduce %s %s' % (_kv(th_before), proto.enc_opt(op[1]))); marks.append((len(results), dict(red)))
+                    reqs.append('objs.reduce %s %s' % (_kv({k: (float(v) if isinstance(v, (float, np.floating)) else int(v)) for k, v in th_before.items()}), proto.enc_opt(op[1]))); marks.append((len(results), dict(red)))
                     want = {k: (v - (op[1] or 0) if k.endswith('_threshold') else v) for k, v in th_before.items()}
                     try:
                         exp = implutil.quiet(rc_edges, prev.copy(deep=True), want); exp_err = None
@@ -300,7 +303,7 @@ def evaluate(ctx, cases):
             if ok and op[0] in ('fit', 'edges', 'load'):
                 attr_check(repr(op))
         if ok:
-            md = _model_trace(c, obs, loaded, sigs, fs, fr)
+            md = _model_trace(c_eff, obs, loaded, sigs, fs, fr)
             if md:
                 corr = False; info['model'] = md
         results.append((ok, corr, info, exp_req))
@@ -312,15 +315,15 @@ def evaluate(ctx, cases):
     bad = {}
     for (idx, red), a in zip(marks, a1):
         got = {k: Fraction(v) for k, v in a}
-        if {k: Fraction(float(v)) if isinstance(v, float) else Fraction(v) for k, v in red.items()} != got and \
-           not all(abs(Fraction(float(red[k])) - got.get(k, 10**9)) < Fraction(1, 10**12) for k in red):
+        if {k: Fraction(float(v)) if isinstance(v, (float, np.floating)) else Fraction(int(v)) for k, v in red.items()} != got and \
+           not all(abs(Fraction(float(red[k])) - got.get(k, 10**9)) < (Fraction(1, 10**6) if any(isinstance(v, np.float32) for v in red.values()) else Fraction(1, 10**12)) for k in red):      # (float32 thresholds are lowered in float32)
             bad[idx] = 'reduce_thresholds differs from the Lean reduceThresholds: %r vs %r' % (red, a)
     j = 0
     for i, r in enumerate(results):
         if r[3] is not None:
             a = a2[j]; j += 1
             want = {k: Fraction(v) for k, v in a}
-            have = {k: Fraction(float(v)) if isinstance(v, float) else Fraction(v) for k, v in r[3][1].items()}
+            have = {k: Fraction(float(v)) if isinstance(v, (float, np.floating)) else Fraction(int(v)) for k, v in r[3][1].items()}
             if want != have: bad[i] = 'shorthand expansion differs from the Lean expandShorthand: %r vs %r' % (r[3][1], a)
     for i, (c, r) in enumerate(zip(cases, results)):
         ok, corr, info, _ = r
